@@ -27,7 +27,13 @@ def make_text(parts):
             flat.append(("atom", p.attrs.get("$of", p)))  # an uninterpreted string, compared by identity
         else:
             return Opaque("str")
-    return Opaque("text", attrs={"parts": flat})
+    merged = []
+    for p in flat:
+        if isinstance(p, str) and merged and isinstance(merged[-1], str):
+            merged[-1] += p
+        elif p != "":
+            merged.append(p)
+    return Opaque("text", attrs={"parts": merged})
 
 
 def floor_div(a, b):
